@@ -186,7 +186,10 @@ def matrix_configs(n, name="dayc", **force):
         if "seasons" not in force:
             if i % 7 == 0: f["seasons"] = 3
             if i % 7 == 1: f["seasons"] = 2
-        cfgs.append(sim.gen_config(rng, **f))
+        c = sim.gen_config(rng, **f)
+        if i % 6 == 4:
+            c["flagtypes"] = True      # boolean options handed over as numpy.bool_ / 0 / 1 (sim.build_objects)
+        cfgs.append(c)
     return cfgs
 
 
